@@ -45,7 +45,16 @@ func loadMutants(prop string) ([]Mutant, error) {
 			return nil, fmt.Errorf("%s: %v", f, err)
 		}
 		for _, m := range ms {
-			if prop == "all" || m.Prop == prop {
+			// equivalents filed under "EQ" apply to every property: they must leave all of its rules silent
+			if prop == "all" || m.Prop == prop || (m.Prop == "EQ" && m.Kind == "equivalent") {
+				if m.Prop == "EQ" && prop != "all" && prop != "EQ" {
+					m.Rules = nil
+					for _, p := range properties {
+						if p.ID == prop {
+							m.Rules = p.Rules
+						}
+					}
+				}
 				out = append(out, m)
 			}
 		}
@@ -115,6 +124,12 @@ func runSelfTest(repo, prop string, print bool, out map[string]any) int {
 							ruleNames = p.Rules
 						}
 					}
+				}
+				if len(ruleNames) == 0 { // "EQ" run on its own: every registered rule
+					for n := range rules {
+						ruleNames = append(ruleNames, n)
+					}
+					sort.Strings(ruleNames)
 				}
 				hit := false
 				for _, rn := range ruleNames {
